@@ -918,6 +918,35 @@ fn check(args: &[String]) {
     if sr_mismatch > 0 {
         machinery.push(format!("{sr_mismatch} configurations: stateright and the own exploration count different numbers of states"));
     }
+    // ---- third explorer: the TLA+ twin of the model under TLC (same distinct-state counts)
+    let mut tlc_twin = serde_json::json!("not run (replay)");
+    if replay_cfg.is_none() {
+        let verif = std::env::var("VERIF_DIR").unwrap_or_else(|_| "/verif".into());
+        let exe = std::env::current_exe().unwrap();
+        let mut cmd = std::process::Command::new("python3");
+        cmd.arg(format!("{verif}/harness-proto/tla/tlc_twin.py")).arg("--protomc").arg(&exe);
+        if !thorough {
+            cmd.arg("--quick");
+        }
+        match cmd.output() {
+            Err(e) => machinery.push(format!("cannot run the TLC twin: {e}")),
+            Ok(o) => {
+                let so = String::from_utf8_lossy(&o.stdout).to_string();
+                match so.lines().rev().find(|l| l.starts_with('{')).and_then(|l| serde_json::from_str::<serde_json::Value>(l).ok()) {
+                    None => machinery.push(format!("the TLC twin gave no report: {}", String::from_utf8_lossy(&o.stderr).chars().take(300).collect::<String>())),
+                    Some(j) => {
+                        for e in j["errors"].as_array().cloned().unwrap_or_default() {
+                            machinery.push(format!("TLC twin: {}", e.as_str().unwrap_or("?").chars().take(300).collect::<String>()));
+                        }
+                        tlc_twin = j["configurations"].clone();
+                        if let Some(why) = j["skipped"].as_str() {
+                            tlc_twin = serde_json::json!(format!("not run: {why}"));
+                        }
+                    }
+                }
+            }
+        }
+    }
     let shapes: Vec<serde_json::Value> = {
         let m = by_shape.lock().unwrap();
         let mut k: Vec<_> = m.iter().collect();
@@ -929,7 +958,7 @@ fn check(args: &[String]) {
         "property": "C07",
         "tier": tier,
         "exhaustive": caps.is_empty() && machinery.is_empty(),
-        "rule": "explicit-state exploration (own breadth-first search, every 16th configuration repeated with stateright's checker, state counts compared) of the abstract length-publication protocol: decoder {write chunk (begin/end), lock, publish decoded / set failed, notify_all, unlock} x R readers {bounds test, lock, predicate, condvar wait, woken, re-lock, return, unlock, size read under the lock (twice for read_exact), slice index, copy} for 1..3 chunks of 2 bytes, 1..3 readers, every multiset of reader operation lists of the alphabet (get_slice / read / read_exact at every offset, streams, two operations in a row), compressed stream delivering all or only a prefix of the bytes; NO preemption bound; invariants on every state: no reader holds bytes the decoder is writing, every operation ends with the stored bytes or with an error only when they can never come, no out-of-range index, no deadlock (every state without successor is final), bounded steps. Binding to the code: every distinct event trace of the real compression.rs under loom (hook H7: events at each lock-protected read or write of the progress, at each buffer write and at each operation's begin and end) must be a path of the model; the model's transitions witnessed by real executions are counted",
+        "rule": "explicit-state exploration (own breadth-first search, every 16th configuration repeated with stateright's checker, a few configurations repeated by TLC on a TLA+ twin of the model (harness-proto/tla/SyncVec.tla), state counts compared) of the abstract length-publication protocol: decoder {write chunk (begin/end), lock, publish decoded / set failed, notify_all, unlock} x R readers {bounds test, lock, predicate, condvar wait, woken, re-lock, return, unlock, size read under the lock (twice for read_exact), slice index, copy} for 1..3 chunks of 2 bytes, 1..3 readers, every multiset of reader operation lists of the alphabet (get_slice / read / read_exact at every offset, streams, two operations in a row), compressed stream delivering all or only a prefix of the bytes; NO preemption bound; invariants on every state: no reader holds bytes the decoder is writing, every operation ends with the stored bytes or with an error only when they can never come, no out-of-range index, no deadlock (every state without successor is final), bounded steps. Binding to the code: every distinct event trace of the real compression.rs under loom (hook H7: events at each lock-protected read or write of the progress, at each buffer write and at each operation's begin and end) must be a path of the model; the model's transitions witnessed by real executions are counted",
         "evaluations": states + traces,
         "distinct_nontrivial": n_cfgs + n_ccfgs,
         "info": {"model_configurations": n_cfgs, "model_states": states, "model_transitions": transitions, "configurations_repeated_with_stateright": sr_checked, "conformance_configurations": n_ccfgs, "loom_executions": execs, "distinct_traces_replayed": traces, "traces_not_accepted_by_the_model": diverged, "model_transitions_of_the_conformance_configurations": edges, "of_which_witnessed_by_real_executions": cov},
@@ -939,7 +968,7 @@ fn check(args: &[String]) {
         "transitions": transitions,
         "traces_validated_against_impl": traces - diverged,
         "distinct_outcomes": 0,
-        "extra": {"self_test_of_the_explorer": selftest},
+        "extra": {"self_test_of_the_explorer": selftest, "tla_twin_under_tlc(distinct states must equal those of both Rust explorers)": tlc_twin},
         "caps": caps,
         "machinery_errors": machinery,
         "violations": findings.clone(),
